@@ -120,8 +120,8 @@ CHECKS = {
     ),
     "C14": dict(
         technique="property-based differential testing over processes, histories and schedules: long-lived worker processes with different PYTHONHASHSEED values, generated step sequences (a history machine whose model is the answer of a pristine forked process), repeated to_xml() on the retained survey, a harness-owned thread scheduler (sys.setprofile baton passing at pyxform call boundaries driven by a generated, shrinkable schedule) and free-running thread stress; oracle = byte equality of (xform, warnings, itemsets) with the fresh-process answer, empty private TMPDIR, unchanged module-level tables",
-        text="Each shard keeps four long-lived workers (hash seeds 0, 1 and two derived from VERIF_SEED) so that state accumulates over the whole run. Generated cases: one form on all seeds; histories of 3-9 steps over a pool of 2-5 forms (incl. a rejected one) with regeneration; 2-4 conversions interleaved by a generated schedule of up to 40 switch points; 4-12 free-running threads. After every step the worker's TMPDIR must be empty and a deep snapshot of aliases/constants/question-type tables must equal the snapshot taken at import.",
-        design_ref="DESIGN.md §4 C14",
-        note="Hash seeds are sampled; switch points are function-call boundaries. One genuine defect (set iteration order reaching the output) found here was fixed in /repo.",
+        text="Each shard keeps four long-lived workers (hash seeds 0, 1 and two derived from VERIF_SEED) so that state accumulates over the whole run. Generated cases: one form on all seeds; histories of 3-9 steps over a pool of 2-5 forms (incl. a rejected one) with regeneration; 2-4 conversions interleaved by a generated schedule of up to 40 switch points, and again under race-directed schedules in pristine child processes (every entry of a function sampled from the first conversion's own call trace hands the baton on; cold caches); 4-12 free-running threads; concurrent first conversions of a brand-new process. The workbook object handed to convert() must come back unchanged and convert the same a second time. After every step the worker's TMPDIR must be empty and a deep snapshot of aliases/constants/question-type tables must equal the snapshot taken at import.",
+        design_ref="DESIGN.md §4 C14, §13",
+        note="Hash seeds are sampled; switch points are function-call boundaries. Genuine defects found here and fixed in /repo: set iteration order reaching the output (twice), a shared re.Scanner whose match state raced between threads, convert() modifying the caller's dict; see DESIGN.md 13.2.",
     ),
 }
